@@ -150,7 +150,23 @@ class TOpt(T):
         return self._dt.some(term)
 
     def val(self, term):
+        # structural shortcut: the payload of  ite(c, some(x), none)  can only be x
+        t = term
+        if z3.is_app(t) and t.decl().kind() == z3.Z3_OP_ITE:
+            c, a, b = t.children()
+            if self._is_some(a) and self._is_none_term(b):
+                return a.arg(0)
+            if self._is_some(b) and self._is_none_term(a):
+                return b.arg(0)
+        if self._is_some(t):
+            return t.arg(0)
         return self._dt.val(term)
+
+    def _is_some(self, t):
+        return z3.is_app(t) and t.num_args() == 1 and t.decl().eq(self._dt.some)
+
+    def _is_none_term(self, t):
+        return z3.is_app(t) and t.num_args() == 0 and t.decl().eq(self._dt.none.decl())
 
     def truthy(self, term):
         return z3.And(z3.Not(self.is_none(term)), self.inner.truthy(self.val(term)))
